@@ -149,7 +149,9 @@ func confirms(v *interp.Violation, r nativeResult) bool {
 		return r.Outcome == "timeout"
 	}
 	if strings.HasPrefix(v.Label, "lock: ") || strings.HasPrefix(v.Label, "race: ") {
-		return r.Outcome == "race" || r.Outcome == "crash"
+		// natively a lock-discipline violation shows as a data race or a crash under the race
+		// detector's stress run - or, when a lock is left held, as a hang of the next writer
+		return r.Outcome == "race" || r.Outcome == "crash" || (strings.HasPrefix(v.Label, "lock: ") && r.Outcome == "timeout")
 	}
 	if r.Outcome == "fail" {
 		for _, l := range r.Labels {
